@@ -96,8 +96,21 @@ def build_all(need_overlay=False):
         if os.path.exists(constgen):
             rc, out = sh([constgen, REPO], env=env)
             if rc != 0:
-                br.coq_ok = False
-                br.coq_log += "constgen failed (a table the model depends on is missing or no longer a literal):\n" + out[-3000:]
+                # the translator could not locate a table (renamed, moved, no longer a literal).  That alone says nothing about the
+                # property: fall back to the constants recorded in the repository of the checks, say so in the evidence, and let the
+                # correspondence run decide -- it compares the model built on them with the current code on every input of the check
+                rec = os.path.join(COQ, "Gen", "Consts.recorded.v")
+                if os.path.exists(rec):
+                    br.notes.append("constgen could not regenerate the constant tables from /repo (%s); the recorded tables "
+                                    "(coq/Gen/Consts.recorded.v) were used and the correspondence run ties them to the current code"
+                                    % " ".join(out.split())[-300:])
+                    out = open(rec).read()
+                    old = open(gen).read() if os.path.exists(gen) else None
+                    if old != out:
+                        open(gen, "w").write(out)
+                else:
+                    br.coq_ok = False
+                    br.coq_log += "constgen failed (a table the model depends on is missing or no longer a literal):\n" + out[-3000:]
             else:
                 old = open(gen).read() if os.path.exists(gen) else None
                 if old != out:
@@ -305,6 +318,10 @@ class Check:
         all closed, and nothing in the development declares an axiom."""
         if not br.go_ok:
             self.broke("correspondence", "harness-build", "the Go harness does not build against /repo: " + br.go_log[-1500:])
+        for nt in getattr(br, "notes", []):
+            if nt not in self.notes:
+                self.notes.append(nt)
+                print("NOTE: " + nt)
         if not br.coq_ok:
             self.broke("proof", "coq-build", br.coq_log[-3000:])
             self.obl = {"expected": [], "closed": [], "missing": ["<build failed>"], "axioms": {}, "assumptions_printed": ""}
